@@ -222,9 +222,10 @@ SCENARIOS = dict(
                     'const:resume',
                     'funnel_net:resume/0/2+resume/1/2+nshell',
                     'empty:resume/0/2+resume/1/2+nshell'],
-             thorough=['gauss', 'gauss_t', 'gauss_d', 'gauss_net', 'two', 'ring_net', 'half',
+             thorough=['gauss', 'gauss_t', 'gauss_d', 'gauss_net:resume+nshell', 'two', 'ring_net', 'half',
                        'plateau', 'wrap_net', 'g3_pool_s', 'b7_update', 'b1', 'blob_f32_inplace',
-                       'nlb', 'funnel_net', 'empty', 'empty_d', 'two_split', 'ring_split_net', 'const']),
+                       'nlb', 'funnel_net', 'empty', 'empty_d:resume+toggle/0/2+toggle/1/2+nshell',
+                       'two_split', 'ring_split_net:resume+nshell', 'const']),
     C03=dict(quick=['blob_float', 'blob_int_vec', 'blob_two_obj', 'blob_array_pool',
                     'blob_struct_dictfn', 'blob_f32_inplace', 'blob_float_b1', 'blob_two_b2_vec'],
              thorough=['blob_float', 'blob_int_vec', 'blob_two_obj', 'blob_array_pool',
@@ -575,7 +576,7 @@ def extra_jobs(prop, tier, scns, results):
     return jobs
 
 
-JOB_WATCHDOG_S = int(os.environ.get('NVMC_JOB_WATCHDOG', '900'))
+JOB_WATCHDOG_S = int(os.environ.get('NVMC_JOB_WATCHDOG', '600'))
 
 
 def _any_job(kind, *args):
